@@ -7,4 +7,6 @@ require (
 	github.com/brocaar/lorawan v0.0.0
 )
 
+require github.com/jacobsa/crypto v0.0.0-20190317225127-9f44e2d11115 // indirect
+
 replace github.com/brocaar/lorawan => /repo
